@@ -7,7 +7,7 @@ MODULE = "fblock"
 ENTRIES = fblock.ENTRIES
 prepare = fblock.prepare
 BOUNDS = {
-    "quick": {"block_types": "all registered (from Factory.cpp)", "version": "symbolic (file,user,stream) under the loader's acceptance predicate", "count_cap_B": 1, "input_bytes_L": 256, "budget_s_per_type": 8},
+    "quick": {"block_types": "all registered (from Factory.cpp)", "version": "symbolic (file,user,stream) under the loader's acceptance predicate", "count_cap_B": 1, "input_bytes_L": 256, "budget_s_per_type": 12},
     "thorough": {"block_types": "all registered", "version": "symbolic, split into 3 version classes", "count_cap_B": 2, "input_bytes_L": 512, "budget_s_per_type": 120},
 }
 ASSUMPTIONS = ['arbitrary input bytes <= L, counts <= B, symbolic version', 'a fault inside Get is an unloadable input']
